@@ -383,6 +383,12 @@ def runWrappedRecoverDecision (recognised : Bool) : String := if recognised then
 /-- RunProgram's deferred recover: the error is returned iff asUncatchableException recognises the panic value, else re-panicked. -/
 def runProgramRecoverDecision (recognised : Bool) : String := if recognised then "err = ex" else "panic(x)"
 
+/-- asUncatchableException: the ordered cases of its type switch. -/
+def asUncatchableDecision (isMarker isError chainUncatchable : Bool) : String :=
+  if isMarker then "return v" else
+  if isError then (if chainUncatchable then "return v" else "return nil") else
+  "return nil"
+
 /-- wrapJSFunc, callee failed with err: what the Go caller of the exported func gets. -/
 def wrapJSFuncDecision (hasErrorResult isException valIsObject hasValue assignable : Bool) : String :=
   if hasErrorResult then (if isException && valIsObject && hasValue && assignable then "return v.Export().(error)" else "return err")
@@ -433,6 +439,7 @@ theorem tie_throwReusesOwnStack : @GojaModel.Generated.C14.throwReusesOwnStack =
 theorem tie_wrapReflectDecision : @GojaModel.Generated.C14.wrapReflectDecision = @Expected.wrapReflectDecision := by rfl
 theorem tie_runWrappedRecoverDecision : @GojaModel.Generated.C14.runWrappedRecoverDecision = @Expected.runWrappedRecoverDecision := by rfl
 theorem tie_runProgramRecoverDecision : @GojaModel.Generated.C14.runProgramRecoverDecision = @Expected.runProgramRecoverDecision := by rfl
+theorem tie_asUncatchableDecision : @GojaModel.Generated.C14.asUncatchableDecision = @Expected.asUncatchableDecision := by rfl
 theorem tie_wrapJSFuncDecision : @GojaModel.Generated.C14.wrapJSFuncDecision = @Expected.wrapJSFuncDecision := by rfl
 
 /-! ## The regenerated classifier table agrees with the model -/
@@ -633,5 +640,28 @@ theorem tie_wrapJSFunc_decision (ev : ErrVal) :
       cases h : ex.val.goErrValue <;>
         simp [wrapJSFuncE, h, GojaModel.Generated.C14.wrapJSFuncDecision]
   · cases ev <;> simp [wrapJSFuncN]
+
+/-- asUncatchableException's regenerated type switch equals the model's `asUncatchableException` on EVERY panic value:
+a Value, a sentinel string or any non-error is never recognised; an error is recognised iff its dynamic type carries the
+marker or errors.As finds a marker in its wrap tree (for an *Exception: through Exception.Unwrap). -/
+theorem tie_asUncatchable_decision (x : Pv) :
+    (asUncatchableException x).isSome =
+      (GojaModel.Generated.C14.asUncatchableDecision
+        (match x with | .goErr e => e.isMarker | _ => false)
+        (match x with | .goErr _ => true | .exc _ => true | _ => false)
+        (match x with | .goErr e => e.isUncatchable | .exc ex => excIsUncatchable ex | _ => false) == "return v") := by
+  cases x with
+  | goErr e =>
+    by_cases hm : e.isMarker = true
+    · have hu : e.isUncatchable = true := by cases e <;> simp_all [GoErr.isMarker, GoErr.isUncatchable]
+      simp [asUncatchableException, GojaModel.Generated.C14.asUncatchableDecision, hm, hu]
+    · by_cases hu : e.isUncatchable = true <;>
+        simp [asUncatchableException, GojaModel.Generated.C14.asUncatchableDecision, hm, hu]
+  | exc ex =>
+    by_cases hu : excIsUncatchable ex = true <;>
+      simp [asUncatchableException, GojaModel.Generated.C14.asUncatchableDecision, hu]
+  | val v => simp [asUncatchableException, GojaModel.Generated.C14.asUncatchableDecision]
+  | sentinel k => simp [asUncatchableException, GojaModel.Generated.C14.asUncatchableDecision]
+  | other n => simp [asUncatchableException, GojaModel.Generated.C14.asUncatchableDecision]
 
 end GojaModel.C14.Tie
